@@ -88,6 +88,16 @@ CLAIMED.update({
    note="Trusts the layout table in mc/src/pkt.rs (TCP flags = 8 control bits). Named access contradicting the selector, $11, header lengths < 5 and 802.1ad/QinQ EtherTypes are unspecified.",
    technique="exhaustive enumeration of field values and dispatch selectors against a layout table"),
 })
+CLAIMED.update({
+ "C17": dict(level="model_checking", design="4.17",
+   text="Single assignments: every writable header property x every in-range value (all values for fields <= 12 bits, boundary + walking bits otherwise, addresses as text) x 3 backgrounds x the frame containing the layer, with four checks each (immediate read-back; serialise, re-parse through a real pcap file, read back; every other readable property of every layer and of the record unchanged; serialised bytes differ only inside the field's bit range of the layout table and hold the value); invalid values (out-of-range integers, every other value kind): error with packet unchanged, or exactly the value modulo 2^w; record fields; histories: explicit-state BFS over sequences of <= 2 (thorough 3) assignments with a read-everything step in between, canonical state = model bytes, each history replayed on a fresh packet.",
+   note="Trusts the layout table. After assigning ihl/dataoff the re-parsed layer may be truncated; only the serialised bits are demanded there.",
+   technique="exhaustive enumeration of property x value assignments plus explicit-state BFS over assignment histories against a byte-level model"),
+ "C18": dict(level="model_checking", design="4.18",
+   text="MAC: all 256 values of each octet x 3 backgrounds x case x 1-2 digit groups on eth.src/dst; IPv4: all 256 values of each octet x 3 backgrounds; IPv6: all 2^8 zero/non-zero group patterns x every legal rendering (uncompressed, every run of >= 1 zero groups at every position replaced by '::' incl. leading/trailing/all-zero, lower/upper case, with/without leading zeros); stored bytes must equal the reference parser's, nothing else may change, and the displayed text must denote and store the same address again; ~250 malformed texts that the reference parser also rejects must raise a runtime error and leave the frame unchanged.",
+   note="std::net::{Ipv4Addr,Ipv6Addr} and a 6-group hex parser are the reference. Forms whose status differs between conventions are not generated.",
+   technique="exhaustive enumeration of address renderings against reference parsers"),
+})
 NOT_YET = "check not built yet in this round (machinery under construction; see DESIGN.md section 4 for the planned check)"
 
 props = [json.loads(l) for l in open(os.path.join(HERE, "properties.jsonl"))]
